@@ -529,7 +529,8 @@ class Tracer:
                 if q.status is not None:
                     nxt.append(q)
                     continue
-                if self.follow_exceptions and (_has_call(st) or _may_raise_lookup(st, s.handlers)) and (s.handlers or s.finalbody):
+                if self.follow_exceptions and (_has_call(st) or _may_raise_lookup(st, s.handlers) or (getattr(fi, 'is_contextmanager', False) and not isinstance(st, _Deferred) and any(isinstance(y_, ast.Yield) for y_ in ast.walk(st)))) \
+                        and (s.handlers or s.finalbody):
                     # the exception is raised by a call of this statement: its calls are recorded (the statement's own
                     # bindings do not happen), then control moves to the handlers
                     before = q.fork()
